@@ -450,7 +450,12 @@ where
         } else {
             svec_to_mat(workΔ, d);
             workΔ.lrscale(Λisqrt, Λisqrt);
-            engine.eigvals(workΔ).expect("Eigval error");
+            // On numerically degenerate problems the scaled direction can be
+            // non-finite and the eigenvalue routine fails: take no step then,
+            // so that the solver stops with an error status instead of panicking.
+            if engine.eigvals(workΔ).is_err() {
+                return T::zero();
+            }
             engine.λ.minimum()
         }
     };
